@@ -12,7 +12,7 @@ import (
 
 func init() {
 	register("C09", propMeta{
-		Explanation: "Reader-contract rule + E-CONST + E-GUARD + E-PANIC on common/encapsulation and its stream feeders. O-1 reader contract: every call of a Read([]byte) (int, error) method must use its count result (or return the pair unchanged), or the read must go through io.ReadFull/ReadAtLeast/CopyN/Copy, which implement the contract for zero-length reads, short reads and data returned together with io.EOF; quick scope: encapsulation and the two packet adapters, thorough: every package. O-1b one reader per stream: the reader handed to encapsulation.ReadData is a pre-existing stream object, not a buffering reader constructed for the single call (its read-ahead would be discarded between packets). O-2 allocation bounded by the announced length: in ReadData the length is built from one byte masked with 0x3f and at most K further bytes masked with 0x7f shifted by 7, the continuation loop leaving with ErrTooLong on the edge i >= K; the bound 2^(6+7K)-1 equals the encoder's limit and the 2^20-1 of the statement. O-3 writer's and reader's tables agree: flag, mask and shift literals of dataPrefixForLength versus ReadData; the padding writer's 3-byte branch (which carries a 0x3f where 0x7f is expected) is dead while the padding buffer is at most 8193 bytes - the checker verifies that precondition. O-4 EOF classes: only the first read of a chunk may return io.EOF unchanged; every later read maps it to io.ErrUnexpectedEOF. O-5 no termination construct on the decode path; the two documented panics (WritePadding(n<0), MaxDataForSize(0)) have no non-test caller. O-6 the codec keeps no shared mutable state: nothing returned or written by the package's functions derives from a package-level variable (concurrent streams would overwrite each other's prefixes). Added after the second seeding round: O-1c at every ReadData call site the call is re-executed only over the err == nil edge of the previous call (no resynchronisation after ErrTooLong or a truncated chunk) and every path from err == nil returns or hands the chunk on before the next ReadData (an empty chunk is delivered, not skipped); O-2 also requires the prefix-length bound to be tested before the continuation byte is read; O-4 accepts the io.EOF mapping inline or in a same-package helper that returns its argument only behind argument != io.EOF; O-6 also counts append/copy into, and method calls on, package-level objects. Added after the third seeding round: the continuation-byte counter restarts for every chunk; the data-channel message handler writes into the receive pipe synchronously (no goroutine per message). Added after the fourth seeding round: O-7/C17 packets queued for encapsulation are private copies of the sender's buffer (C17's copy-on-enqueue obligation).",
+		Explanation: "Reader-contract rule + E-CONST + E-GUARD + E-PANIC on common/encapsulation and its stream feeders. O-1 reader contract: every call of a Read([]byte) (int, error) method must use its count result (or return the pair unchanged), or the read must go through io.ReadFull/ReadAtLeast/CopyN/Copy, which implement the contract for zero-length reads, short reads and data returned together with io.EOF; quick scope: encapsulation and the two packet adapters, thorough: every package. O-1b one reader per stream: the reader handed to encapsulation.ReadData is a pre-existing stream object, not a buffering reader constructed for the single call (its read-ahead would be discarded between packets). O-2 allocation bounded by the announced length: in ReadData the length is built from one byte masked with 0x3f and at most K further bytes masked with 0x7f shifted by 7, the continuation loop leaving with ErrTooLong on the edge i >= K; the bound 2^(6+7K)-1 equals the encoder's limit and the 2^20-1 of the statement. O-3 writer's and reader's tables agree: flag, mask and shift literals of dataPrefixForLength versus ReadData; the padding writer's 3-byte branch (which carries a 0x3f where 0x7f is expected) is dead while the padding buffer is at most 8193 bytes - the checker verifies that precondition. O-4 EOF classes: only the first read of a chunk may return io.EOF unchanged; every later read maps it to io.ErrUnexpectedEOF. O-5 no termination construct on the decode path; the two documented panics (WritePadding(n<0), MaxDataForSize(0)) have no non-test caller. O-6 the codec keeps no shared mutable state: nothing returned or written by the package's functions derives from a package-level variable (concurrent streams would overwrite each other's prefixes). Added after the second seeding round: O-1c at every ReadData call site the call is re-executed only over the err == nil edge of the previous call (no resynchronisation after ErrTooLong or a truncated chunk) and every path from err == nil returns or hands the chunk on before the next ReadData (an empty chunk is delivered, not skipped); O-2 also requires the prefix-length bound to be tested before the continuation byte is read; O-4 accepts the io.EOF mapping inline or in a same-package helper that returns its argument only behind argument != io.EOF; O-6 also counts append/copy into, and method calls on, package-level objects. Added after the third seeding round: the continuation-byte counter restarts for every chunk; the data-channel message handler writes into the receive pipe synchronously (no goroutine per message). Added after the fourth seeding round: O-7/C17 packets queued for encapsulation are private copies of the sender's buffer (C17's copy-on-enqueue obligation). Added after the fifth seeding round: O-8 websocketconn.readLoop copies the message reader itself (no LimitReader/CopyN), and a buffer given to io.CopyBuffer is allocated by the copying function (the two directions of a relay do not share one).",
 		NotDecided:  "round-trip equality over all chunk sequences, MaxDataForSize arithmetic, padding length arithmetic (value-level).",
 		Assumptions: []string{"io.ReadFull/io.CopyN implement the io.Reader contract"},
 	}, runC09)
@@ -51,6 +51,7 @@ func runC09(c *Ctx) {
 	c.prefix = "O-7/C17:"
 	c.checkCopyOnEnqueue(p.FnsIn("common/turbotunnel"))
 	c.prefix = ""
+	c.checkCarrierCopies()
 	// ---------- O-1 ----------
 	rule1 := "O-1 reader contract"
 	scope := append(append([]*ssa.Function{}, enc...), p.FnsIn("client/lib", "server/lib", "common/websocketconn")...)
@@ -874,4 +875,57 @@ func immutableShared(t types.Type) bool {
 		return true
 	}
 	return false
+}
+
+// checkCarrierCopies: the byte stream the framing rides on is carried whole and
+// unmixed: (a) websocketconn.readLoop copies each message's reader itself into
+// the pipe (a limited or partial copy drops the tail of a large message and the
+// next chunk is decoded from the middle of a packet); (b) a buffer handed to
+// io.CopyBuffer is allocated by the goroutine that uses it (one buffer shared by
+// the two directions of a relay lets one direction overwrite bytes the other has
+// read but not yet written).
+func (c *Ctx) checkCarrierCopies() {
+	p := c.P
+	rule := "O-8 the carrier copies every byte, each direction in its own buffer"
+	if rl := p.Fn("common/websocketconn", "readLoop"); rl != nil {
+		n := 0
+		for _, ci := range callsTo(rl, "io.Copy", "io.CopyBuffer", "io.CopyN") {
+			n++
+			src := ci.Common().Args[1]
+			cc, idx, ok := callResult(src)
+			good := ok && strings.HasSuffix(calleeName(cc), "websocket.Conn).NextReader") && idx == 1 && calleeName(ci) != "io.CopyN"
+			c.check(good, rule, "websocketconn.readLoop copies the whole message", p.instrPos(ci), "io.Copy(w, r) with r the message reader", "what is copied into the stream is not the message reader itself (a LimitReader, CopyN): the rest of a larger message is discarded")
+		}
+		if n == 0 {
+			c.undecided(rule, "websocketconn.readLoop copies the message", p.Pos(rl.Pos()), "no io.Copy found")
+		}
+	} else {
+		c.undecided(rule, "common/websocketconn.readLoop", "-", "anchor does not resolve")
+	}
+	nB := 0
+	for _, fn := range p.FnsIn("proxy/lib", "server", "server/lib", "client/lib", "common/websocketconn") {
+		for _, ci := range callsTo(fn, "io.CopyBuffer") {
+			nB++
+			buf := ci.Common().Args[2]
+			if isNilConst(buf) {
+				continue
+			}
+			local := false
+			xforms(buf, func(v ssa.Value) bool {
+				if ms, ok := v.(*ssa.MakeSlice); ok {
+					local = ms.Parent() == fn
+					return true
+				}
+				if al, ok := v.(*ssa.Alloc); ok {
+					local = al.Parent() == fn
+					return true
+				}
+				return false
+			})
+			c.check(local, rule, p.FnName(fn)+" copies through a buffer of its own", p.instrPos(ci), "", "the buffer given to io.CopyBuffer is not allocated by the function that copies (it is captured or passed in): concurrent copies share it and corrupt each other's data")
+		}
+	}
+	if nB == 0 {
+		c.okTrivial(rule, "no io.CopyBuffer with a caller-supplied buffer", "-", "every relay direction uses io.Copy's own buffer")
+	}
 }
